@@ -682,10 +682,13 @@ def gen_case(ci):
 
 def run_case(ci, c):
     devname, labels, dw = c["devname"], c["labels"], c["dw"]
-    ops, ref, odesc, tags = gen_circuit(labels, c["flavour"], c["clifford"])
-    mcm_val = getattr(gen_circuit, "last_mv", None) if "mcm" in tags else None
-    ms, mref, mdesc = gen_measurements(labels, c["flavour"], tags, c["clifford"], mcm_val)
-    gen_circuit.last_mv = None
+    if "fixed" in c:          # hand-written case of the fixed corpus: circuit, reference items and classifier tags given
+        ops, ref, odesc, tags, ms, mref, mdesc = c["fixed"]()
+    else:
+        ops, ref, odesc, tags = gen_circuit(labels, c["flavour"], c["clifford"])
+        mcm_val = getattr(gen_circuit, "last_mv", None) if "mcm" in tags else None
+        ms, mref, mdesc = gen_measurements(labels, c["flavour"], tags, c["clifford"], mcm_val)
+        gen_circuit.last_mv = None
     if c["shots"]:
         # finite shots: only (a)/(c) and the model are checked; sampleable measurements stay, state-like ones are dropped
         keep = [j for j, r in enumerate(mref) if r["kind"] in ("expval", "var", "probs", "mcm_expval")]
@@ -715,8 +718,9 @@ def run_case(ci, c):
         used.append(labels[-1])
     if c["wmode"] == "missing":
         tags.add("unsupported_wire")
-    tape = qp.tape.QuantumScript(ops, ms, shots=c["shots"])
-    run = {"i": ci, "device": devname, "dev_wires": [str(x) for x in dw] if dw is not None else None, "labels": [str(l) for l in labels],
+    # trainable=None: QuantumScript's default (every parameter trainable); [] = the forward pass a QNode builds for plain floats
+    tape = qp.tape.QuantumScript(ops, ms, shots=c["shots"], trainable_params=c.get("trainable"))
+    run = {"i": ci, "fixed": c.get("name"), "trainable_params": c.get("trainable"), "device": devname, "dev_wires": [str(x) for x in dw] if dw is not None else None, "labels": [str(l) for l in labels],
            "flavour": c["flavour"], "wmode": c["wmode"], "grad": c["grad"], "mcm": c["mcm"], "shots": c["shots"],
            "ops": odesc, "meas": mdesc, "tags": sorted(tags)}
     dev = make_device(devname, dw)
@@ -935,6 +939,101 @@ def run_case(ci, c):
     return run
 
 
+# ----------------------------------------------------------------------------------------------------------------
+# FIXED CORPUS (runs first, independent of the random seed). Every case goes through run_case like a generated one: same staged
+# run, model tables, direct predicates and comparison with the independent numpy simulation of the ORIGINAL circuit. Circuits the
+# device documents as unsupported carry an `unsupported_*` tag: they must be rejected (or, if accepted, still give the reference).
+FIXED_BASE = 10 ** 6
+
+
+def _fx_ops(a, b):
+    """RY(0.7) a; CNOT a,b; RX(0.3) b  (reference matrices from compute_matrix / the textbook CNOT)"""
+    ops = [qp.RY(0.7, wires=a), qp.CNOT(wires=[a, b]), qp.RX(0.3, wires=b)]
+    ref = [("U", ry(0.7), [a]), ("U", CNOTM, [a, b]), ("U", np.asarray(qp.RX.compute_matrix(0.3), dtype=complex), [b])]
+    return ops, ref, [f"RY(0.700000)@{[a]}", f"CNOT()@{[a, b]}", f"RX(0.300000)@{[b]}"]
+
+
+def _fx_meas(spec):
+    """spec: list of ("expval", obs, M, ws, desc) | ("probs", ws) | ("state",)"""
+    ms, mref, desc = [], [], []
+    for m in spec:
+        if m[0] == "expval":
+            _, o, M, ws, d = m
+            ms.append(qp.expval(o)); mref.append({"kind": "expval", "M": np.asarray(M, dtype=complex), "ws": list(ws)}); desc.append(f"expval({d})")
+        elif m[0] == "probs":
+            ms.append(qp.probs(wires=list(m[1]))); mref.append({"kind": "probs", "ws": list(m[1])}); desc.append(f"probs({list(m[1])})")
+        else:
+            ms.append(qp.state()); mref.append({"kind": "state"}); desc.append("state()")
+    return ms, mref, desc
+
+
+def _fixed_cases():
+    cases = []
+
+    def add(name, devname, dw, labels, grad, trainable, spec_fn, tags=()):
+        a, b = labels
+
+        def build():
+            ops, ref, od = _fx_ops(a, b)
+            ms, mref, md = _fx_meas(spec_fn(a, b))
+            return ops, ref, od, set(tags), ms, mref, md
+        cases.append(dict(name=name, devname=devname, clifford=False, labels=list(labels), flavour="fixed", wmode="fixed", dw=dw,
+                          grad=grad, mcm=None, shots=None, trainable=trainable, fixed=build))
+
+    # --- default.qubit, gradient_method='adjoint', forward pass without trainable parameters (what a QNode with
+    # diff_method='adjoint' builds for float arguments). Documented (adjoint_state_measurements): all expectation values pass
+    # unchanged; otherwise any measurement with diagonalizing gates is an error; measurements without observables / with
+    # diagonal observables are served from one state measurement.
+    ADJ_MIX = "unsupported_meas:adjoint_nondiagonal_observable_mixed_with_state_measurement"
+    for wn, dw, (a, b) in (("nowires", None, (0, 1)), ("wires2", [0, 1], (0, 1)), ("perm+aux", [1, 0, "aux"], (0, 1)), ("labels", ["q1", "aux"], ("aux", "q1"))):
+        for tn, tr in (("notrain", []), ("train", None)):
+            if tr is None and wn in ("wires2", "labels"):
+                continue
+            D = f"adjoint/{wn}/{tn}/"
+            add(D + "X+probs", "default.qubit", dw, (a, b), "adjoint", tr, lambda a, b: [("expval", qp.X(a), X, [a], f"X({a})"), ("probs", [b])], [ADJ_MIX])
+            add(D + "probs+Y", "default.qubit", dw, (a, b), "adjoint", tr, lambda a, b: [("probs", [a]), ("expval", qp.Y(b), Y, [b], f"Y({b})")], [ADJ_MIX])
+            add(D + "state+H", "default.qubit", dw, (a, b), "adjoint", tr, lambda a, b: [("state",), ("expval", qp.Hadamard(a), H, [a], f"H({a})")], [ADJ_MIX])
+            add(D + "XY+probs", "default.qubit", dw, (a, b), "adjoint", tr,
+                lambda a, b: [("expval", qp.X(a) @ qp.Y(b), np.kron(X, Y), [a, b], f"X({a})@Y({b})"), ("probs", [a, b])], [ADJ_MIX])
+            add(D + "Z+probs", "default.qubit", dw, (a, b), "adjoint", tr, lambda a, b: [("expval", qp.Z(a), Z, [a], f"Z({a})"), ("probs", [b])])
+            add(D + "ZZ+probs+state", "default.qubit", dw, (a, b), "adjoint", tr,
+                lambda a, b: [("expval", qp.Z(a) @ qp.Z(b), np.kron(Z, Z), [a, b], f"Z({a})@Z({b})"), ("probs", [b, a]), ("state",)])
+            add(D + "X,Y", "default.qubit", dw, (a, b), "adjoint", tr,
+                lambda a, b: [("expval", qp.X(a), X, [a], f"X({a})"), ("expval", qp.Y(b), Y, [b], f"Y({b})")])
+    # --- observables: scalar multiples / sums of observables a device does not support must be rejected like the bare observable;
+    # arithmetic of supported observables must be accepted and give the reference. default.mixed documents Pow / Adjoint (and any
+    # non-observable operator) as unsupported observables; default.qubit accepts every observable with a matrix.
+    UO = "unsupported_obs:"
+    obs_specs = [
+        ("Z**2", lambda a, b: [("expval", qp.Z(a) ** 2, I2, [a], f"Z({a})**2")], UO + "pow"),
+        ("2*Z**2", lambda a, b: [("expval", 2 * qp.Z(a) ** 2, 2 * I2, [a], f"2*Z({a})**2")], UO + "sprod_of_pow"),
+        ("0.5*X**3", lambda a, b: [("expval", 0.5 * qp.pow(qp.X(a), 3), 0.5 * X, [a], f"0.5*X({a})**3")], UO + "sprod_of_pow"),
+        ("-1*Adjoint(Y)", lambda a, b: [("expval", -1.0 * qp.adjoint(qp.Y(b)), -Y, [b], f"-1.0*Adjoint(Y({b}))")], UO + "sprod_of_adjoint"),
+        ("2*(0.5*Y**3)", lambda a, b: [("expval", qp.s_prod(2.0, qp.s_prod(0.5, qp.pow(qp.Y(b), 3), lazy=True), lazy=True), Y, [b], f"2.0*(0.5*Y({b})**3)")], UO + "sprod_of_sprod_of_pow"),
+        ("Z+2*X**3", lambda a, b: [("expval", qp.sum(qp.Z(a), 2 * qp.pow(qp.X(b), 3)), np.kron(Z, I2) + 2 * np.kron(I2, X), [a, b], f"(Z({a}))+(2*X({b})**3)")], UO + "sum_with_sprod_of_pow"),
+        ("X@(3*Z**3)", lambda a, b: [("expval", qp.prod(qp.X(a), 3 * qp.pow(qp.Z(b), 3)), 3 * np.kron(X, Z), [a, b], f"X({a})@(3*Z({b})**3)")], UO + "prod_with_sprod_of_pow"),
+        ("2*Z", lambda a, b: [("expval", 2 * qp.Z(a), 2 * Z, [a], f"2*Z({a})")], None),
+        ("0.5*(X@Z)+0.2*Y", lambda a, b: [("expval", 0.5 * (qp.X(a) @ qp.Z(b)) + 0.2 * qp.Y(b), 0.5 * np.kron(X, Z) + 0.2 * np.kron(I2, Y), [a, b],
+                                           f"(0.5*(X({a})@Z({b})))+(0.2*Y({b}))")], None),
+        ("-1.5*Hermitian", lambda a, b: [("expval", qp.s_prod(-1.5, qp.Hermitian(np.array([[1, 1 - 1j], [1 + 1j, -2]]), wires=[b])),
+                                          -1.5 * np.array([[1, 1 - 1j], [1 + 1j, -2]]), [b], f"-1.5*Hermitian([[1,1-1j],[1+1j,-2]])@{[b]}")], None),
+        ("2*H+probs", lambda a, b: [("expval", 2 * qp.Hadamard(a), 2 * H, [a], f"2*H({a})"), ("probs", [b, a])], None),
+    ]
+    for wn, dw, (a, b) in (("nowires", None, (0, 1)), ("wires2", [0, 1], (0, 1)), ("labels", ["q1", "aux"], ("aux", "q1"))):
+        for on, fn, tag in obs_specs:
+            add(f"obs/default.mixed/{wn}/{on}", "default.mixed", dw, (a, b), None, None, fn, [tag] if tag else [])
+        for on, fn, tag in obs_specs:
+            # (scalar multiples of Pow are accepted by default.qubit in the pinned tree but crash in execution: recorded separately)
+            if tag is None or tag in (UO + "pow", UO + "sprod_of_adjoint"):
+                add(f"obs/default.qubit/{wn}/{on}", "default.qubit", dw, (a, b), None, None, fn)
+            elif wn == "nowires" and on in ("2*Z**2", "Z+2*X**3"):
+                # recorded finding: accepted by default.qubit's preprocessing, crashes in execution (classified in props/c33.py)
+                add(f"obs/default.qubit/{wn}/{on}", "default.qubit", dw, (a, b), None, None, fn, ["dq_sprod_of_pow"])
+    return cases
+
+
+FIXED = _fixed_cases()
+
 import signal
 
 
@@ -950,11 +1049,11 @@ signal.signal(signal.SIGALRM, _alarm)
 ncase = 200 if tier == "quick" else 1500
 budget = 45 if tier == "quick" else 420
 runs = []
-for ci in (req.get("only") or range(ncase)):
-    if time.time() - T0 > budget:
+for ci in (req.get("only") or list(range(FIXED_BASE, FIXED_BASE + len(FIXED))) + list(range(ncase))):
+    if ci < FIXED_BASE and time.time() - T0 > budget:
         break
     rng.seed(req["seed"] * 1000003 + 33 + ci * 7919)
-    c = gen_case(ci)
+    c = FIXED[ci - FIXED_BASE] if ci >= FIXED_BASE else gen_case(ci)
     if req.get("debug"):
         print(ci, c, file=sys.stderr, flush=True)
     try:
@@ -964,7 +1063,7 @@ for ci in (req.get("only") or range(ncase)):
         finally:
             signal.alarm(0)
     except CaseTimeout:
-        runs.append({"i": ci, "device": c["devname"], "status": "timeout", "detail": json.dumps({k: (v if k != "labels" else [str(x) for x in v]) for k, v in c.items() if k != "dw"})})
+        runs.append({"i": ci, "device": c["devname"], "status": "timeout", "detail": json.dumps({k: (v if k != "labels" else [str(x) for x in v]) for k, v in c.items() if k not in ("dw", "fixed")})})
     except Exception as e:
         import traceback
         runs.append({"i": ci, "device": c["devname"], "status": "driver_error", "detail": f"{type(e).__name__}: {str(e)[:200]}",
